@@ -124,4 +124,43 @@ VENTRY(h_coarse_correction)
         if (!ex) I.applyProlongation(L1, L0, corr, rc); else I.applyExtrapolatedProlongation(L1, L0, corr, rc);
         for (int i = 0; i < n; i++) vcheck_eq(L0.solution()[i], u[i] + corr[i], "cycle(nu=0)=u+P*Ac^-1*R(f-Au)", i);
     }
+    if (c.nu1 == 0 && c.nu2 == 0 && g->levels_.size() == 3) {
+        // more than two levels: the recursive branch.  u + P M (R (f - A u)) with the SAME transfer operators and coarse right-hand
+        // side as on two levels, where M is what the cycle type prescribes on the next level from a zero start (V: one V cycle;
+        // W: two W cycles; F: an F cycle, then a V cycle), carried out by the plain cycles of a second solver object.
+        alignas(GMGPolar) static unsigned char buf2[sizeof(GMGPolar)];
+        GMGPolar* h = vmake_state(buf2, c);
+        h->setup();
+        const DomainGeometry& geo = *g->domain_geometry_;
+        const DensityProfileCoefficients& co = *g->density_profile_coefficients_;
+        std::vector<int> thr{1, 1, 1};
+        Interpolation I(thr, c.dirbc != 0);
+        std::unique_ptr<Residual> R0, R1;
+        // (same strategy as the solver object here: the cross-strategy comparison is the two-level job's; with three levels the
+        //  obligations are meant to be discharged structurally)
+        if (c.strategy == 0) {
+            R0 = std::make_unique<ResidualTake>(L0.grid(), L0.levelCache(), geo, co, c.dirbc != 0, 1);
+            R1 = std::make_unique<ResidualTake>(L1.grid(), L1.levelCache(), geo, co, c.dirbc != 0, 1);
+        }
+        else {
+            R0 = std::make_unique<ResidualGive>(L0.grid(), L0.levelCache(), geo, co, c.dirbc != 0, 1);
+            R1 = std::make_unique<ResidualGive>(L1.grid(), L1.levelCache(), geo, co, c.dirbc != 0, 1);
+        }
+        Vector<double> r(n), rc(n1), corr(n), e1(n1), scratch(n1);
+        R0->computeResidual(r, f, u);
+        if (!ex) I.applyRestriction(L0, L1, rc, r);
+        else {
+            Vector<double> uc(n1), r1(n1);
+            I.applyExtrapolatedRestriction(L0, L1, rc, r);
+            I.applyInjection(L0, L1, uc, u);
+            R1->computeResidual(r1, fc, uc);
+            for (int i = 0; i < n1; i++) rc[i] = 4.0 / 3.0 * rc[i] + (-1.0 / 3.0) * r1[i];
+        }
+        for (int i = 0; i < n1; i++) { e1[i] = 0.0; scratch[i] = 0.0; }
+        if (c.cycle == 0) h->multigrid_V_Cycle(1, e1, rc, scratch);
+        else if (c.cycle == 1) { h->multigrid_W_Cycle(1, e1, rc, scratch); h->multigrid_W_Cycle(1, e1, rc, scratch); }
+        else { h->multigrid_F_Cycle(1, e1, rc, scratch); h->multigrid_V_Cycle(1, e1, rc, scratch); }
+        if (!ex) I.applyProlongation(L1, L0, corr, e1); else I.applyExtrapolatedProlongation(L1, L0, corr, e1);
+        for (int i = 0; i < n; i++) vcheck_eq(L0.solution()[i], u[i] + corr[i], "cycle(nu=0,3-levels)=u+P*M*R(f-Au)", i);
+    }
 }
